@@ -602,6 +602,60 @@ struct Harness
 #endif
     }
 
+    // the iteration macros of the container header, for an element type of exactly the container's element size:
+    // forward / reverse element loops (C99 and C89 forms) must visit the element addresses in order, the index loops 0..num-1
+    template <size_t S>
+    void check_loops(Live &L, Ck &ck)
+    {
+        struct E { unsigned char b[S]; };
+        cont *c = L.c;
+        unsigned char *d = L.data();
+        size_t num = c->num_;
+        std::vector<void *> fwd, rev, want;
+        std::vector<size_t> ifwd, irev;
+        for (size_t i = 0; i < num; ++i) { want.push_back(d + i * S); }
+        size_t guard = 0;
+#if defined(SEQ_VEC)
+        a_vec_foreach(E, *, it, c) { fwd.push_back(it); if (++guard > num + 2) { break; } }
+        guard = 0;
+        a_vec_foreach_reverse(E, *, it, c) { rev.push_back(it); if (++guard > num + 2) { break; } }
+        { E *it, *at; std::vector<void *> f2, r2; guard = 0; A_VEC_FOREACH(E *, it, at, c) { f2.push_back(it); if (++guard > num + 2) { break; } } guard = 0; A_VEC_FOREACH_REVERSE(E *, it, at, c) { r2.push_back(it); if (++guard > num + 2) { break; } }
+          if (f2 != fwd || r2 != rev) { ck.fail("loop-macros", "the upper-case and lower-case element loops disagree"); return; } }
+        a_vec_forenum(i, c) { ifwd.push_back(i); if (ifwd.size() > num + 2) { break; } }
+        a_vec_forenum_reverse(i, c) { irev.push_back(i); if (irev.size() > num + 2) { break; } }
+        { a_size i; std::vector<size_t> f2, r2; A_VEC_FORENUM(a_size, i, c) { f2.push_back(i); if (f2.size() > num + 2) { break; } } A_VEC_FORENUM_REVERSE(a_size, i, c) { r2.push_back(i); if (r2.size() > num + 2) { break; } }
+          if (f2 != ifwd || r2 != irev) { ck.fail("loop-macros", "the upper-case and lower-case index loops disagree"); return; } }
+#else
+        a_buf_foreach(E, *, it, c) { fwd.push_back(it); if (++guard > num + 2) { break; } }
+        guard = 0;
+        a_buf_foreach_reverse(E, *, it, c) { rev.push_back(it); if (++guard > num + 2) { break; } }
+        { E *it, *at; std::vector<void *> f2, r2; guard = 0; A_BUF_FOREACH(E *, it, at, c) { f2.push_back(it); if (++guard > num + 2) { break; } } guard = 0; A_BUF_FOREACH_REVERSE(E *, it, at, c) { r2.push_back(it); if (++guard > num + 2) { break; } }
+          if (f2 != fwd || r2 != rev) { ck.fail("loop-macros", "the upper-case and lower-case element loops disagree"); return; } }
+        a_buf_forenum(i, c) { ifwd.push_back(i); if (ifwd.size() > num + 2) { break; } }
+        a_buf_forenum_reverse(i, c) { irev.push_back(i); if (irev.size() > num + 2) { break; } }
+        { a_size i; std::vector<size_t> f2, r2; A_BUF_FORENUM(a_size, i, c) { f2.push_back(i); if (f2.size() > num + 2) { break; } } A_BUF_FORENUM_REVERSE(a_size, i, c) { r2.push_back(i); if (r2.size() > num + 2) { break; } }
+          if (f2 != ifwd || r2 != irev) { ck.fail("loop-macros", "the upper-case and lower-case index loops disagree"); return; } }
+#endif
+        if (fwd != want) { ck.fail("loop-macros", "the forward element loop does not visit the " + std::to_string(num) + " elements in order"); return; }
+        std::reverse(want.begin(), want.end());
+        if (rev != want) { ck.fail("loop-macros", "the reverse element loop does not visit the " + std::to_string(num) + " elements in reverse order"); return; }
+        for (size_t i = 0; i < num; ++i) { if (ifwd.size() != num || ifwd[i] != i || irev.size() != num || irev[i] != num - 1 - i) { ck.fail("loop-macros", "the index loops do not run over 0.." + std::to_string(num) + "-1"); return; } }
+        if (num == 0 && (!ifwd.empty() || !irev.empty())) { ck.fail("loop-macros", "an index loop runs on an empty container"); }
+    }
+    void check_loops_any(Live &L, Ck &ck)
+    {
+        switch (L.c->siz_)
+        {
+        case 1: check_loops<1>(L, ck); break;
+        case 2: check_loops<2>(L, ck); break;
+        case 3: check_loops<3>(L, ck); break;
+        case 8: check_loops<8>(L, ck); break;
+        case 12: check_loops<12>(L, ck); break;
+        case 16: check_loops<16>(L, ck); break;
+        default: break;
+        }
+    }
+
     // ---------------------------------------------------------------- menu
     std::vector<xs::Op> menu(const std::string &key) const
     {
@@ -679,6 +733,7 @@ struct Harness
                 make(L, key);
                 Ck ck;
                 check_access(L, ck);
+                if (ck.ok()) { check_loops_any(L, ck); }
                 if (ck.ok() && encode(L) != key) { ck.fail("accessor", "accessors changed the container"); }
                 if (ck.ok()) { destroy(L, ck); }
                 out.leave();
